@@ -67,6 +67,38 @@ class ReaderModel(Model):
                 it.act('STORE', key[4:], it.show(v))
 
     @staticmethod
+    def parse_off(txt):
+        """'3' -> (False, 3); '3+LEN' -> (True, 3); else None"""
+        txt = str(txt)
+        try:
+            if txt.endswith('+LEN'):
+                return (True, int(txt[:-4]))
+            return (False, int(txt))
+        except ValueError:
+            return None
+
+    def guarded(self, it, k, nbytes=1, lin_len=False):
+        """Is an access of nbytes at cursor offset k covered by a bounds guard assumed true on this path?
+        k: int | ('LIN', c) | None.  AVAIL@j means offset j is readable, ENOUGH@m means m bytes are available."""
+        if k is None:
+            return False
+        cls, kk = (True, k[1]) if isinstance(k, tuple) else (False, k)
+        if lin_len:
+            cls = True
+        for lab, d in it.path.guards:
+            if not d:
+                continue
+            if lab.startswith('AVAIL@'):
+                o = self.parse_off(lab[6:])
+                if o and o[0] == cls and nbytes == 1 and o[1] >= kk:
+                    return True
+            elif lab.startswith('ENOUGH@'):
+                o = self.parse_off(lab[7:])
+                if o and o[0] == cls and o[1] >= kk + nbytes:
+                    return True
+        return False
+
+    @staticmethod
     def off_add(off, n):
         """offset (int | ('LIN', c) | None) + n (int | LEN/LIN Sym | other)"""
         if off is None:
@@ -78,7 +110,7 @@ class ReaderModel(Model):
                 return ('LIN', off[1] + n)
             return off + n
         ln = ReaderModel.lin(n)
-        if ln is not None and ln[1] and not isinstance(off, tuple):
+        if ln is not None and ln[1] == 1 and not isinstance(off, tuple):
             return ('LIN', off + ln[0])
         return None
 
@@ -107,6 +139,24 @@ class ReaderModel(Model):
             if isinstance(x, Sym) and isinstance(x.tag, tuple) and x.tag[0] == 'BYTE' and isinstance(y, int):
                 lab = 'BYTE[%s]%s%d' % (x.tag[1], op, y)
                 return Sym(('GUARD', lab))
+        # c + m*LEN with LEN >= 0 has the lower bound c: some comparisons with constants are decided
+        la, lb = self.lin(a), self.lin(b)
+        if la is not None and lb is not None and (la[1] > 0) != (lb[1] > 0) and min(la[1], lb[1]) == 0:
+            flip = {'<': '>', '>': '<', '<=': '>=', '>=': '<=', '==': '==', '!=': '!='}
+            (lo, _), (kc, _), o = (la, lb, op) if la[1] > 0 else (lb, la, flip[op])
+            # value >= lo ; compare "value o kc"
+            if o == '==' and kc < lo:
+                return 0
+            if o == '!=' and kc < lo:
+                return 1
+            if o == '<' and kc <= lo:
+                return 0
+            if o == '<=' and kc < lo:
+                return 0
+            if o == '>' and kc < lo:
+                return 1
+            if o == '>=' and kc <= lo:
+                return 1
         nm = self.opname(fr, L) or self.opname(fr, R)
         if nm and 'olicy' in nm:
             c = b if isinstance(b, int) else a
@@ -118,32 +168,62 @@ class ReaderModel(Model):
 
     @staticmethod
     def lin(v):
-        """value -> (const, has_len) for ints / LEN / LIN symbols, else None"""
+        """value -> (const, multiple_of_LEN) for ints / LEN / RD / LIN / LINM symbols, else None"""
         if isinstance(v, bool):
-            return (int(v), False)
+            return (int(v), 0)
         if isinstance(v, int):
-            return (v, False)
+            return (v, 0)
         if isinstance(v, Sym) and isinstance(v.tag, tuple):
             if v.tag[0] in ('LEN', 'RD'):
-                return (0, True)
+                return (0, 1)
             if v.tag[0] == 'LIN':
-                return (v.tag[1], True)
+                return (v.tag[1], 1)
+            if v.tag[0] == 'LINM':
+                return (v.tag[1], v.tag[2])
         return None
 
+    @staticmethod
+    def mk_lin(c, m):
+        if m == 0:
+            return c
+        if m == 1:
+            return Sym(('LIN', c))
+        return Sym(('LINM', c, m))
+
     def arith(self, it, fr, n, op, a, b):
-        if op == '+':
-            la, lb = self.lin(a), self.lin(b)
-            if la is not None and lb is not None and not (la[1] and lb[1]):
-                return Sym(('LIN', la[0] + lb[0]))
+        if op in ('+', '-'):
             if isinstance(a, Pos) or isinstance(b, Pos):
-                p, o = (a, b) if isinstance(a, Pos) else (b, a)
-                lo = self.lin(o)
-                if lo is not None and lo[1] and p.k is not None and not isinstance(p.k, tuple):
-                    return Pos(('LIN', p.k + lo[0]))
+                if op == '+':
+                    p, o = (a, b) if isinstance(a, Pos) else (b, a)
+                    lo = self.lin(o)
+                    if lo is not None and lo[1] == 1 and p.k is not None and not isinstance(p.k, tuple):
+                        return Pos(('LIN', p.k + lo[0]))
                 return Pos(None)
+            la, lb = self.lin(a), self.lin(b)
+            if la is not None and lb is not None:
+                sg = 1 if op == '+' else -1
+                return self.mk_lin(la[0] + sg * lb[0], la[1] + sg * lb[1])
+        if op == '*':
+            la, lb = self.lin(a), self.lin(b)
+            if la is not None and lb is not None and (la[1] == 0 or lb[1] == 0):
+                k = la[0] if la[1] == 0 else lb[0]
+                o = lb if la[1] == 0 else la
+                return self.mk_lin(o[0] * k, o[1] * k)
         return TOP
 
+    def after_loop(self, it, fr, n):
+        # the cursor may have moved in further iterations
+        it.off = None
+        if self.kind == 'string':
+            it.store['this.mPos'] = Pos(None)
+
     def deref(self, it, fr, n, v):
+        if isinstance(v, Sym) and isinstance(v.tag, tuple) and v.tag[0] == 'PTR':
+            nb = sizeof_type(fr.f.type(n)) or 1
+            if not self.guarded(it, v.tag[1], nb):
+                it.act('UNGUARDED', '*(%d bytes at input+%s)' % (nb, self.show_off(v.tag[1])), fr.f.loc(n))
+        elif isinstance(v, Sym) and v.tag == 'BLOCKDATA?':
+            it.act('UNGUARDED', '*(unchecked ReadSolidBlock result)', fr.f.loc(n))
         return TOP
 
     def member_value(self, it, fr, n, base):
@@ -156,6 +236,16 @@ class ReaderModel(Model):
             return vals[0]
         if 'basic_string_view' in t and len(vals) == 1:
             return vals[0]
+        if 'basic_string_view' in t and len(vals) == 2 and isinstance(vals[0], Sym) and isinstance(vals[0].tag, tuple) and vals[0].tag[0] == 'PTR':
+            k = vals[0].tag[1]
+            ln = vals[1]
+            if isinstance(ln, int):
+                ok = self.guarded(it, k, ln) if ln else True
+            else:
+                ok = self.guarded(it, k, 0, lin_len=True) if (self.lin(ln) and self.lin(ln)[1] == 1) else False
+            if not ok:
+                it.act('UNGUARDED', 'string_view(input+%s, len)' % (self.show_off(k),), fr.f.loc(n))
+            return Sym('VIEW')
         r = self.construct_record(it, fr, n, depth, vals)
         return r
 
@@ -280,6 +370,8 @@ class ReaderModel(Model):
                 return TOP
             if name in ('operator*', 'value', 'operator->'):
                 if isinstance(v, Opt):
+                    if v.has is not True and name != 'value':
+                        it.act('UNGUARDED', 'dereference of an optional that was not tested', fr.f.loc(n))
                     return v.inner
                 return v
             return TOP
@@ -295,11 +387,15 @@ class ReaderModel(Model):
                     k = avals[0].k
                     if k != 0:
                         it.act('PEEKAT', k if k is not None else 'T')
+                    if not self.guarded(it, k, 1):
+                        it.act('UNGUARDED', 'input[%s]' % (self.show_off(k),), fr.f.loc(n))
                     return self.byte_at(it, k)
                 return TOP
             if name == 'data':
                 if isinstance(v, Sym) and v.tag == 'INPUT':
                     return Sym('DATA')
+                if isinstance(v, Opt) and isinstance(v.inner, Sym) and v.inner.tag == 'BLOCK':
+                    return Sym('BLOCKDATA') if v.has is True else Sym('BLOCKDATA?')
                 return TOP
             if name == 'empty':
                 if isinstance(v, Opt):
@@ -600,22 +696,55 @@ def skip_tables(prog):
     return out
 
 
+def off_str(e, path=None):
+    if e is None:
+        return 'T'
+    if isinstance(e, tuple):
+        return '%d+LEN' % e[1]
+    if path is not None:
+        for lab, d in path.guards:
+            if d and lab.startswith('VAR:') and lab.endswith('==0'):
+                return '%d+LEN' % e
+    return str(e)
+
+
+def skip_summary(path):
+    """(extent of the value's own bytes, number of nested values still to skip) for one abstract path of SkipValueImpl.
+    Understands the iterative form (a work counter, first iteration interpreted precisely) and the recursive form
+    (loops over nested SkipValueImpl calls)."""
+    acts = path.actions
+    it1 = [a for a in acts if a[0] == 'ITER1END']
+    nxt = [a for a in acts if a[0] == 'LOOPNEXT']
+    has_skip = any(a[0] == 'SKIP' for a in acts)
+    if it1 and nxt and not has_skip and acts and acts[0][0] == 'LOOP':
+        v = nxt[0][1]
+        nested = {"('LIN', 0)": 'LEN', "('LINM', 0, 2)": '2LEN'}.get(v, str(v))
+        return off_str(it1[0][1], path), nested
+    sem = semantic(path)
+    loops = sem[6]
+    nested = '0'
+    if loops:
+        bound, per = loops[0]
+        if isinstance(bound, int):
+            nested = str(bound * per)
+        else:
+            nested = 'LEN' if per == 1 else '2LEN'
+    return str(sem[1]), nested
+
+
 def expected_skip(b):
     fixed, lf, kind, emb = SPEC.skip_layout(b)
     end = 1 + lf + fixed
-    loops = ()
+    nested = '0'
     if kind == 'bytes':
-        if lf:
-            end = '%d+LEN' % end
-        else:
-            end = end + emb
+        end = ('%d+LEN' % end) if lf else str(end + emb)
     elif kind in ('items', 'pairs'):
         per = 1 if kind == 'items' else 2
         if lf:
-            loops = ((str(('LEN', lf)), per),)
-        elif emb:
-            loops = ((emb, per),)
-    return end, loops
+            nested = 'LEN' if per == 1 else '2LEN'
+        else:
+            nested = str(emb * per)
+    return str(end), nested
 
 
 # ---------------------------------------------------------------------------------------- C07 rules
@@ -800,10 +929,10 @@ def check_bytecode_table(prog, rep):
         badb = []
         for b in range(256):
             exp = expected_skip(b)
-            got = set((s[1], s[6]) for s in semantic_set(per[b]) if s[0][0] == 'RET')
-            if any(e == exp[0] and l == exp[1] for e, l in got):
+            got = set(skip_summary(p) for p in per[b] if sufficient(p) and p.outcome[0] == 'RET')
+            if exp in got and all(g == exp or (g[0] == exp[0] and g[1] == '0' and exp[1] in ('LEN', '2LEN')) for g in got):
                 rep.ok('R7.2', '%s|SkipValueImpl|%02x' % (kind, b),
-                       sample={'reader': kind, 'first_byte': '0x%02x' % b, 'extent': str(exp[0]), 'nested': str(exp[1])} if b in (0xde, 0xc7) else None)
+                       sample={'reader': kind, 'first_byte': '0x%02x' % b, 'extent': exp[0], 'nested_values': exp[1]} if b in (0xde, 0xc7) else None)
             else:
                 badb.append((b, exp, sorted(map(str, got))))
         if badb:
